@@ -18,6 +18,7 @@ INVARIANT RefusalKeepsEverything
 INVARIANT ReadRefusalKeepsPrevious
 INVARIANT StoredValuesAreCanonical
 INVARIANT RenameLands
+INVARIANT CurrentNameWins
 INVARIANT UnknownNamesAreReportedAndIgnored
 INVARIANT OthersUntouched
 INVARIANT CopiesStartEqual
